@@ -7,6 +7,7 @@
 #include "Z/ResistiveWall.hpp"
 #include "Z/CollimatorImpedance.hpp"
 #include "Z/ConstImpedance.hpp"
+#include "Z/ImpedanceFactory.hpp"
 #include <complex>
 #include <algorithm>
 
@@ -105,7 +106,17 @@ static void fill_passive(Rng& r, Setup& s, int model, std::string& name) {
     case 1: name = "freespace"; imp.reset(new FreeSpaceCSR(s.N, (frequency_t)frev, (frequency_t)fmax)); break;
     case 2: name = "parallelplates"; imp.reset(new ParallelPlatesCSR(s.N, (frequency_t)frev, (frequency_t)fmax, r.uni(0.01, 0.1))); break;
     case 3: name = "resistivewall"; imp.reset(new ResistiveWall(s.N, (frequency_t)frev, (frequency_t)fmax, physcons::c / frev, r.logu(1e5, 1e8), 0, r.uni(0.005, 0.05))); break;
-    default: name = "collimator"; imp.reset(new CollimatorImpedance(s.N, (frequency_t)fmax, 0.02, r.uni(0.001, 0.019))); break;
+    case 4: name = "collimator"; imp.reset(new CollimatorImpedance(s.N, (frequency_t)fmax, 0.02, r.uni(0.001, 0.019))); break;
+    default: {
+        // what the program's factory hands out for a random combination of options (collimator openings from far
+        // narrower to far wider than the chamber, with and without wall, shielded or free-space CSR)
+        name = "factory";
+        double gap = r.uni(0.01, 0.1) * ((s.N > 600 || r.chance(0.4)) ? -1 : 1);
+        double inner = r.chance(0.2) ? 0 : r.uni(0.05, 2.5) * std::fabs(gap);
+        double sig = r.chance(0.5) ? r.logu(1e5, 1e8) : 0, xi = r.chance(0.5) ? 0 : r.uni(0, 3);
+        auto z = makeImpedance(s.N, nullptr, (frequency_t)fmax, r.logu(1, 30), (frequency_t)frev, gap, true, sig, xi, inner, "");
+        for (size_t k = 0; k < s.N; k++) s.Z[k] = z->impedance()[k];
+        return; }
     }
     for (size_t k = 0; k < s.N; k++) s.Z[k] = imp->impedance()[k];
 }
@@ -122,6 +133,7 @@ static void mode_c07() {
             if (s.N < need) s.N = pick_length(r, need, M.thorough());
         }
         int model = (int)(c % 5);
+        if (c % 11 == 10) model = 5;              // impedance from the program's factory
         if (model == 2 && s.N > 600) s.N = 256;   // Airy sums are slow
         if (s.N < s.n) s.N = 64;
         if (s.N < (size_t)s.buckets[0] * s.spacing + s.n) { s.buckets = {0}; s.spacing = 0; }   // (offset bunch does not fit the shortened buffer)
@@ -139,6 +151,9 @@ static void mode_c07() {
         ElectricField ef(ps, imp, s.buckets, s.spacing, nullptr, s.frev, (meshaxis_t)s.revpart, s.Ib, s.E0, s.sE, s.dt);
         bool wake_first = (c / 3) % 2 == 1;        // the same object is asked for the wake before / after the spectrum
         if (wake_first) { ef.wakePotential(); M.ev("wake_requested_before_spectrum"); }
+        // the same object may have been asked for the spectrum behind a beam-line cutoff before: "cutoff disabled" must mean disabled
+        bool cut_first = cutoff > 0 && (c / 30) % 2 == 1;
+        if (cut_first) { ef.updateCSR((frequency_t)cutoff); M.ev("cutoff_requested_before_disabled"); }
         ef.updateCSR(0);
         double P = ef.getCSRPower()[0];
         std::vector<double> S(ef.getCSRSpectrum(), ef.getCSRSpectrum() + s.N);
@@ -185,6 +200,15 @@ static void mode_c07() {
                 vh::J d; d.s("model", mname).n("P", P).n("P_cutoff", Pc).n("cutoff", cutoff);
                 M.violation("C07:cutoff", "with a cutoff frequency the CSR power is not within [0, power without cutoff]", d.str());
             }
+            // ... and with another cutoff afterwards the power orders with the cutoffs; disabling it again gives the first result
+            double cut2 = cutoff * r.logu(2, 30) , Pc2;
+            ef.updateCSR((frequency_t)cut2); Pc2 = ef.getCSRPower()[0];
+            ef.updateCSR(0);
+            double P2 = ef.getCSRPower()[0];
+            if (!(Pc2 <= Pc * (1 + 1e-6) + 1e-30) || !vh::bits_equal((float)P2, (float)P)) {
+                vh::J d; d.s("model", mname).n("P", P).n("P_again_without_cutoff", P2).n("P_cutoff", Pc).n("P_higher_cutoff", Pc2).n("cutoff", cutoff).n("higher_cutoff", cut2);
+                M.violation("C07:cutoff:sticky", "CSR power does not follow the cutoff of the current request (higher cutoff must not give more power; cutoff disabled again must give the original power)", d.str());
+            }
         }
         M.sig(vh::hmix(vh::hmix(s.N, s.n * 8 + model), vh::hdata(rho.data(), 8 * std::min<size_t>(rho.size(), 64))));
         { vh::J j; j.s("class", "c07").s("model", mname).s("setup", s.descr()).n("P_norm", lhs).n("half_rho_W", 0.5 * rhoW).i("zero_exempt", zero_exempt); M.sample(j.str()); }
@@ -200,7 +224,7 @@ static void mode_c07mb() {
         s.buckets.clear(); for (uint32_t b = 0; b < s.nb; b++) s.buckets.push_back(s.nb - 1 - b);
         s.spacing = 0;
         s.N = pick_length(r, s.n, M.thorough());
-        int model = (int)(c % 5); if (model == 2 && s.N > 600) s.N = 256;
+        int model = (c % 11 == 10) ? 5 : (int)(c % 5); if (model == 2 && s.N > 600) s.N = 256;
         std::string mname; fill_passive(r, s, model, mname);
         double cutoff = (c / 5) % 2 ? r.logu(1e9, 1e12) : 0;
         M.begin_case(c, "c07mb " + mname + " " + s.descr());
